@@ -305,6 +305,9 @@ fn op_strategy() -> impl Strategy<Value = Op> {
         4 => (boundary(), boundary(), 0u8..4).prop_map(|(a, b, v)| Op::Insert(a.min(b), a.max(b), v)),
         2 => (sorted_disjoint(4), 0u8..4).prop_map(|(l, v)| Op::InsertRanges(l.into_iter().enumerate().map(|(i, (a, b))| (a, b, (v + i as u8) % 4)).collect())),
         4 => sorted_disjoint(4).prop_map(Op::Remove),
+        // long lists: removed / inserted maps with many more pieces than the map itself
+        1 => sorted_disjoint(24).prop_map(Op::Remove),
+        1 => (sorted_disjoint(24), 0u8..4).prop_map(|(l, v)| Op::InsertRanges(l.into_iter().map(|(a, b)| (a, b, v)).collect())),
     ]
 }
 
